@@ -873,7 +873,10 @@ class API:
                         selector_errors.append(f"Field `{field_str}` was not found")
                     else:
                         field = top_level_request_message.fields[field_str]
-                        if field.type != wrappers.PrimitiveType.build(str):
+                        if (
+                            field.type != wrappers.PrimitiveType.build(str)
+                            or field.repeated
+                        ):
                             selector_errors.append(
                                 f"Field `{field_str}` is not of type string."
                             )
